@@ -23,7 +23,7 @@ func init() {
 	for h := -12; h <= 14; h++ {
 		c20Zones = append(c20Zones, time.FixedZone(fmt.Sprintf("UTC%+d", h), h*3600))
 	}
-	c20Zones = append(c20Zones, time.FixedZone("+0530", 5*3600+1800), time.FixedZone("-0330", -(3*3600 + 1800)))
+	c20Zones = append(c20Zones, time.FixedZone("+0530", 5*3600+1800), time.FixedZone("-0330", -(3*3600+1800)))
 }
 
 func tstr(t time.Time) string { return t.Format("2006-01-02T15:04:05.999999999Z07:00") }
